@@ -289,6 +289,27 @@ Proof. intros H. rewrite add_same_exp by exact H. reflexivity. Qed.
 Lemma add_negate_zero a : val (add a (negate a)) = 0.
 Proof. rewrite add_val_same_exp by reflexivity. cbn [negate val]. lia. Qed.
 
+(* at one precision x.MatchPrecision(y).Add(y) is x.Add(y) *)
+Lemma add_precise_same_exp a b : exp b = exp a -> add_precise a b = add a b.
+Proof.
+  intros H. unfold add_precise, match_precision, rescale_up. rewrite H, Nat.ltb_irrefl. reflexivity.
+Qed.
+
+Lemma add_precise_val_same_exp a b : exp b = exp a -> val (add_precise a b) = val a + val b.
+Proof. intros H. rewrite add_precise_same_exp by exact H. apply add_val_same_exp, H. Qed.
+
+Lemma add_precise_exp_same a b : exp b = exp a -> exp (add_precise a b) = exp a.
+Proof. intros H. rewrite add_precise_same_exp by exact H. reflexivity. Qed.
+
+(* in general it has the finer of the two precisions *)
+Lemma add_precise_exp a b : exp (add_precise a b) = Nat.max (exp a) (exp b).
+Proof.
+  unfold add_precise, match_precision, rescale_up. rewrite add_exp.
+  destruct (Nat.ltb (exp a) (exp b)) eqn:E.
+  - apply Nat.ltb_lt in E. rewrite rescale_exp. lia.
+  - apply Nat.ltb_ge in E. lia.
+Qed.
+
 (* ------------------------------------------------------------------------------------------ *)
 (* well-formed summaries and the lookup view                                                   *)
 (* ------------------------------------------------------------------------------------------ *)
@@ -313,6 +334,14 @@ Definition wf_ct (c : nat) (ct : cat_total) : Prop :=
 (* the unexported working-precision amounts (ct_precise, tt_precise) are left unconstrained *)
 Definition wf_tt (c : nat) (t : tax_total) : Prop :=
   distinct_codes (tt_cats t) /\ Forall (wf_ct c) (tt_cats t) /\ exp (tt_sum t) = c.
+
+(* the same without any precision: distinct codes and groups, exempt groups without surcharge rate,
+   no surcharge amount without surcharge rate *)
+Definition shape_rt (r : rate_total) : Prop :=
+  (rt_pct r = None -> rt_sur r = None) /\ (rt_sur r = None -> val (rt_suramount r) = 0).
+Definition wf_shape (t : tax_total) : Prop :=
+  distinct_codes (tt_cats t) /\
+  Forall (fun ct => distinct_groups (ct_rates ct) /\ Forall shape_rt (ct_rates ct)) (tt_cats t).
 
 Fixpoint find_group (key : rate_total) (rts : list rate_total) : option rate_total :=
   match rts with
@@ -439,13 +468,26 @@ Lemma cat_of_merge mp t1 t2 code : distinct_codes (tt_cats t2) ->
   merged_row _ (ct_merge_with mp) (cat_of t1 code) (cat_of t2 code).
 Proof. intros D. unfold cat_of, tt_merge_with. cbn [tt_cats]. apply find_cat_fold, D. Qed.
 
-Lemma group_of_merge mp c t1 t2 code key : wf_tt c t2 ->
-  group_of (tt_merge_with mp t1 t2) code key =
+Lemma group_of_merge_shape t1 t2 code key : wf_shape t2 ->
+  group_of (tt_merge t1 t2) code key =
   merged_row _ rt_merge (group_of t1 code key) (group_of t2 code key).
 Proof.
-  intros W. unfold group_of. rewrite cat_of_merge by apply W.
+  intros (D & F). unfold group_of, tt_merge. rewrite cat_of_merge by exact D.
   destruct (cat_of t1 code) as [m|] eqn:E1; destruct (cat_of t2 code) as [r|] eqn:E2; cbn [merged_row].
-  - unfold ct_merge_with. cbn [ct_rates]. apply find_group_fold.
+  - unfold ct_merge_with. cbn [ct_rates mp_merge_rate mp_repaired]. apply find_group_fold.
+    apply find_cat_some in E2. destruct E2 as [E2 _]. rewrite Forall_forall in F. apply (F r E2).
+  - destruct (find_group key (ct_rates m)); reflexivity.
+  - destruct (find_group key (ct_rates r)); reflexivity.
+  - reflexivity.
+Qed.
+
+Lemma group_of_merge c t1 t2 code key : wf_tt c t2 ->
+  group_of (tt_merge t1 t2) code key =
+  merged_row _ rt_merge (group_of t1 code key) (group_of t2 code key).
+Proof.
+  intros W. unfold group_of, tt_merge. rewrite cat_of_merge by apply W.
+  destruct (cat_of t1 code) as [m|] eqn:E1; destruct (cat_of t2 code) as [r|] eqn:E2; cbn [merged_row].
+  - unfold ct_merge_with. cbn [ct_rates mp_merge_rate mp_repaired]. apply find_group_fold.
     apply (cat_of_wf c t2 code r W E2).
   - destruct (find_group key (ct_rates m)); reflexivity.
   - destruct (find_group key (ct_rates r)); reflexivity.
@@ -469,8 +511,8 @@ Proof.
   intros Wm Wr M. pose proof (rt_Matches_sur_agree c m r Wm Wr M) as Ag.
   destruct Wm as (B1 & A1 & S1 & P1 & Z1), Wr as (B2 & A2 & S2 & P2 & Z2).
   unfold wf_rt, rt_merge. cbn [rt_base rt_amount rt_suramount rt_pct rt_sur].
-  rewrite !add_exp. repeat split; try assumption.
-  - destruct (rt_sur r); [rewrite add_exp|]; assumption.
+  rewrite !add_precise_exp_same by congruence. repeat split; try assumption.
+  - destruct (rt_sur r); [rewrite add_precise_exp_same by congruence|]; assumption.
   - intros N. destruct (rt_sur r) eqn:E; [|apply Z1, N].
     apply Ag in N. discriminate.
 Qed.
@@ -482,9 +524,9 @@ Lemma rt_merge_vals c m r : wf_rt c m -> wf_rt c r ->
 Proof.
   intros (B1 & A1 & S1 & P1 & Z1) (B2 & A2 & S2 & P2 & Z2).
   unfold rt_merge. cbn [rt_base rt_amount rt_suramount].
-  rewrite !add_val_same_exp by congruence. repeat split.
+  rewrite !add_precise_val_same_exp by congruence. repeat split.
   destruct (rt_sur r) eqn:E.
-  - apply add_val_same_exp. congruence.
+  - apply add_precise_val_same_exp. congruence.
   - rewrite Z2 by reflexivity. lia.
 Qed.
 
@@ -494,29 +536,29 @@ Lemma sur_merge_exp c a b :
 Proof.
   intros Ha Hb s. unfold sur_merge. destruct b as [y|]; [|apply Ha].
   destruct a as [x|]; intros H; injection H as <-.
-  - rewrite add_exp. apply Ha. reflexivity.
+  - rewrite add_precise_exp_same; [apply Ha; reflexivity|]. rewrite (Ha x), (Hb y); reflexivity.
   - apply Hb. reflexivity.
 Qed.
 
 Lemma ct_merge_wf c m r : wf_ct c m -> wf_ct c r -> wf_ct c (ct_merge_with mp_repaired m r).
 Proof.
   intros (D1 & F1 & A1 & S1) (D2 & F2 & A2 & S2).
-  unfold wf_ct, ct_merge_with. cbn [ct_rates ct_amount ct_surcharge mp_sur mp_repaired].
+  unfold wf_ct, ct_merge_with. cbn [ct_rates ct_amount ct_surcharge mp_sur mp_add mp_merge_rate mp_repaired].
   rewrite fold_merge_rate_k. repeat split.
   - apply distinct_groups_k. apply kfold_distinct; try reflexivity. apply D1.
   - apply kfold_Forall; try assumption. apply rt_merge_wf.
-  - rewrite add_exp. exact A1.
+  - rewrite add_precise_exp_same by congruence. exact A1.
   - apply sur_merge_exp; assumption.
 Qed.
 
 Lemma tt_merge_wf c t1 t2 : wf_tt c t1 -> wf_tt c t2 -> wf_tt c (tt_merge t1 t2).
 Proof.
   intros (D1 & F1 & S1) (D2 & F2 & S2).
-  unfold wf_tt, tt_merge, tt_merge_with. cbn [tt_cats tt_sum].
+  unfold wf_tt, tt_merge, tt_merge_with. cbn [tt_cats tt_sum mp_add mp_repaired].
   rewrite fold_merge_cat_k. repeat split.
   - apply distinct_codes_k. apply kfold_distinct; try reflexivity. apply distinct_codes_k, D1.
   - apply kfold_Forall; try assumption. intros m r Wm Wr _. apply ct_merge_wf; assumption.
-  - rewrite add_exp. exact S1.
+  - rewrite add_precise_exp_same by congruence. exact S1.
 Qed.
 
 (* ---- (b) Merge adds component-wise ---- *)
@@ -525,7 +567,7 @@ Lemma sur_merge_vals c a b :
   option_map val (sur_merge a b) = opt_sum (option_map val a) (option_map val b).
 Proof.
   intros Ha Hb. destruct a as [x|], b as [y|]; cbn [sur_merge option_map opt_sum]; try reflexivity.
-  rewrite add_val_same_exp; [reflexivity|].
+  rewrite add_precise_val_same_exp; [reflexivity|].
   rewrite (Ha x), (Hb y); reflexivity.
 Qed.
 
@@ -537,7 +579,7 @@ Lemma merge_groups c t1 t2 code key : wf_tt c t1 -> wf_tt c t2 ->
   has_group m code key = has_group t1 code key || has_group t2 code key.
 Proof.
   intros W1 W2 m. unfold group_base, group_amount, group_suramount, has_group, m, tt_merge.
-  rewrite (group_of_merge mp_repaired c t1 t2 code key W2).
+  fold (tt_merge t1 t2). rewrite (group_of_merge c t1 t2 code key W2).
   destruct (group_of t1 code key) as [g1|] eqn:E1; destruct (group_of t2 code key) as [g2|] eqn:E2;
     cbn [merged_row orb].
   - pose proof (rt_merge_vals c g1 g2 (group_of_wf _ _ _ _ _ W1 E1) (group_of_wf _ _ _ _ _ W2 E2))
@@ -560,8 +602,8 @@ Proof.
     cbn [merged_row orb].
   - pose proof (cat_of_wf _ _ _ _ W1 E1) as (_ & _ & A1 & S1).
     pose proof (cat_of_wf _ _ _ _ W2 E2) as (_ & _ & A2 & S2).
-    unfold ct_merge_with. cbn [ct_amount ct_surcharge mp_sur mp_repaired].
-    rewrite add_val_same_exp by congruence.
+    unfold ct_merge_with. cbn [ct_amount ct_surcharge mp_sur mp_add mp_repaired].
+    rewrite add_precise_val_same_exp by congruence.
     rewrite (sur_merge_vals c) by assumption. repeat split.
   - repeat split; [lia|]. destruct (option_map val (ct_surcharge c1)); reflexivity.
   - repeat split. destruct (option_map val (ct_surcharge c2)); reflexivity.
@@ -585,7 +627,7 @@ Proof.
   intros W1 W2 m. split; [apply tt_merge_wf; assumption|]. split; [|split].
   - intros code key. apply (merge_groups c); assumption.
   - intros code. apply (merge_cats c); assumption.
-  - unfold m, tt_merge, tt_merge_with. cbn [tt_sum]. apply add_val_same_exp.
+  - unfold m, tt_merge, tt_merge_with. cbn [tt_sum mp_add mp_repaired]. apply add_precise_val_same_exp.
     destruct W1 as (_ & _ & S1), W2 as (_ & _ & S2). congruence.
 Qed.
 
@@ -767,6 +809,169 @@ Proof.
   - intros code. rewrite (C1 code), (C2 code). rewrite (andb_comm (has_cat t2 code)).
     destruct (has_cat t1 code && has_cat t2 code); ring.
   - rewrite S1, S2. ring.
+Qed.
+
+(* ------------------------------------------------------------------------------------------ *)
+(* (b'') operands of different precision: every presented figure is the exact sum              *)
+(* ------------------------------------------------------------------------------------------ *)
+(* the lookup view in rationals (the operands need not share a precision) *)
+Definition group_baseQ t code key : Q :=
+  match group_of t code key with Some g => toQ (rt_base g) | None => 0%Q end.
+Definition group_amountQ t code key : Q :=
+  match group_of t code key with Some g => toQ (rt_amount g) | None => 0%Q end.
+Definition group_suramountQ t code key : Q :=
+  match group_of t code key with Some g => toQ (rt_suramount g) | None => 0%Q end.
+Definition cat_amountQ t code : Q :=
+  match cat_of t code with Some ct => toQ (ct_amount ct) | None => 0%Q end.
+Definition cat_surchargeQ t code : Q :=
+  match cat_of t code with
+  | Some ct => match ct_surcharge ct with Some s => toQ s | None => 0%Q end
+  | None => 0%Q
+  end.
+Definition has_surcharge t code : bool :=
+  match cat_of t code with
+  | Some ct => match ct_surcharge ct with Some _ => true | None => false end
+  | None => false
+  end.
+
+Lemma wf_tt_shape c t : wf_tt c t -> wf_shape t.
+Proof.
+  intros (D & F & _). split; [exact D|].
+  eapply Forall_impl; [|exact F]. intros ct (Dg & Fr & _). split; [exact Dg|].
+  eapply Forall_impl; [|exact Fr]. intros r (_ & _ & _ & P & Z). split; assumption.
+Qed.
+
+Lemma shape_Matches_sur_agree m r : shape_rt m -> shape_rt r -> rt_Matches m r = true ->
+  (rt_sur m = None <-> rt_sur r = None).
+Proof.
+  intros (Pm & _) (Pr & _). unfold rt_Matches.
+  rewrite !andb_true_iff. intros [_ H].
+  destruct (rt_pct m) as [p|], (rt_pct r) as [q|]; try discriminate.
+  - apply andb_true_iff in H. destruct H as [_ H].
+    destruct (rt_sur m), (rt_sur r); try discriminate; split; intros; (discriminate || reflexivity).
+  - rewrite Pm, Pr by reflexivity. tauto.
+Qed.
+
+Lemma rt_merge_shape m r : shape_rt m -> shape_rt r -> rt_Matches m r = true -> shape_rt (rt_merge m r).
+Proof.
+  intros Sm Sr M. pose proof (shape_Matches_sur_agree m r Sm Sr M) as Ag.
+  destruct Sm as (P1 & Z1). unfold shape_rt, rt_merge. cbn [rt_pct rt_sur rt_suramount].
+  split; [exact P1|]. intros N. destruct (rt_sur r) eqn:E; [|apply Z1, N].
+  apply Ag in N. discriminate.
+Qed.
+
+Lemma toQ_zero_val a : val a = 0 -> toQ a == 0.
+Proof. intros H. unfold Qeq, toQ. cbn [Qnum Qden]. rewrite H. reflexivity. Qed.
+
+Lemma rt_merge_Q m r : shape_rt r ->
+  toQ (rt_base (rt_merge m r)) == toQ (rt_base m) + toQ (rt_base r) /\
+  toQ (rt_amount (rt_merge m r)) == toQ (rt_amount m) + toQ (rt_amount r) /\
+  toQ (rt_suramount (rt_merge m r)) == toQ (rt_suramount m) + toQ (rt_suramount r).
+Proof.
+  intros (_ & Z2). unfold rt_merge. cbn [rt_base rt_amount rt_suramount].
+  split; [apply add_precise_toQ|]. split; [apply add_precise_toQ|].
+  destruct (rt_sur r) eqn:E; [apply add_precise_toQ|].
+  rewrite (toQ_zero_val (rt_suramount r)) by (apply Z2; reflexivity). ring.
+Qed.
+
+Lemma ct_merge_shape m r :
+  distinct_groups (ct_rates m) /\ Forall shape_rt (ct_rates m) ->
+  distinct_groups (ct_rates r) /\ Forall shape_rt (ct_rates r) ->
+  distinct_groups (ct_rates (ct_merge_with mp_repaired m r)) /\
+  Forall shape_rt (ct_rates (ct_merge_with mp_repaired m r)).
+Proof.
+  intros (D1 & F1) (D2 & F2). unfold ct_merge_with. cbn [ct_rates mp_merge_rate mp_repaired].
+  rewrite fold_merge_rate_k. split.
+  - apply distinct_groups_k. apply kfold_distinct; try reflexivity. apply D1.
+  - apply kfold_Forall; try assumption. apply rt_merge_shape.
+Qed.
+
+Lemma tt_merge_shape t1 t2 : wf_shape t1 -> wf_shape t2 -> wf_shape (tt_merge t1 t2).
+Proof.
+  intros (D1 & F1) (D2 & F2). unfold wf_shape, tt_merge, tt_merge_with. cbn [tt_cats].
+  rewrite fold_merge_cat_k. split.
+  - apply distinct_codes_k. apply kfold_distinct; try reflexivity. apply distinct_codes_k, D1.
+  - apply kfold_Forall; try assumption. intros m r Wm Wr _. apply ct_merge_shape; assumption.
+Qed.
+
+Lemma group_of_shape t code key g : wf_shape t -> group_of t code key = Some g -> shape_rt g.
+Proof.
+  intros (_ & F). unfold group_of. destruct (cat_of t code) as [ct|] eqn:E; [|discriminate].
+  intros H. apply find_group_some in H. destruct H as [H _].
+  apply find_cat_some in E. destruct E as [E _].
+  rewrite Forall_forall in F. destruct (F ct E) as (_ & Fr).
+  rewrite Forall_forall in Fr. apply Fr, H.
+Qed.
+
+Lemma merge_exact_for_any_precision t1 t2 : wf_shape t1 -> wf_shape t2 ->
+  let m := tt_merge t1 t2 in
+  wf_shape m /\
+  (forall code key,
+     group_baseQ m code key == group_baseQ t1 code key + group_baseQ t2 code key /\
+     group_amountQ m code key == group_amountQ t1 code key + group_amountQ t2 code key /\
+     group_suramountQ m code key == group_suramountQ t1 code key + group_suramountQ t2 code key /\
+     has_group m code key = has_group t1 code key || has_group t2 code key) /\
+  (forall code,
+     cat_amountQ m code == cat_amountQ t1 code + cat_amountQ t2 code /\
+     cat_surchargeQ m code == cat_surchargeQ t1 code + cat_surchargeQ t2 code /\
+     has_surcharge m code = has_surcharge t1 code || has_surcharge t2 code /\
+     has_cat m code = has_cat t1 code || has_cat t2 code) /\
+  toQ (tt_sum m) == toQ (tt_sum t1) + toQ (tt_sum t2) /\
+  exp (tt_sum m) = Nat.max (exp (tt_sum t1)) (exp (tt_sum t2)).
+Proof.
+  intros W1 W2 m. split; [apply tt_merge_shape; assumption|]. split; [|split; [|split]].
+  - intros code key. unfold group_baseQ, group_amountQ, group_suramountQ, has_group, m.
+    rewrite (group_of_merge_shape t1 t2 code key W2).
+    destruct (group_of t1 code key) as [g1|] eqn:E1; destruct (group_of t2 code key) as [g2|] eqn:E2;
+      cbn [merged_row orb].
+    + destruct (rt_merge_Q g1 g2 (group_of_shape _ _ _ _ W2 E2)) as (H1 & H2 & H3).
+      rewrite H1, H2, H3. repeat split; reflexivity.
+    + repeat split; ring.
+    + repeat split; ring.
+    + repeat split; ring.
+  - intros code. unfold cat_amountQ, cat_surchargeQ, has_surcharge, has_cat, m, tt_merge.
+    rewrite (cat_of_merge mp_repaired t1 t2 code) by apply W2.
+    destruct (cat_of t1 code) as [c1|] eqn:E1; destruct (cat_of t2 code) as [c2|] eqn:E2;
+      cbn [merged_row orb].
+    + unfold ct_merge_with. cbn [ct_amount ct_surcharge mp_sur mp_add mp_repaired].
+      split; [apply add_precise_toQ|].
+      destruct (ct_surcharge c1) as [x|], (ct_surcharge c2) as [y|]; cbn [sur_merge orb];
+        repeat split; try ring. apply add_precise_toQ.
+    + repeat split; try ring. destruct (ct_surcharge c1); reflexivity.
+    + repeat split; ring.
+    + repeat split; ring.
+  - unfold m, tt_merge, tt_merge_with. cbn [tt_sum mp_add mp_repaired]. apply add_precise_toQ.
+  - unfold m, tt_merge, tt_merge_with. cbn [tt_sum mp_add mp_repaired]. apply add_precise_exp.
+Qed.
+
+(* hence the order of the operands matters for the order of the rows only, whatever their precisions *)
+Lemma merge_order_independent_for_any_precision t1 t2 : wf_shape t1 -> wf_shape t2 ->
+  let a := tt_merge t1 t2 in
+  let b := tt_merge t2 t1 in
+  (forall code key,
+     group_baseQ a code key == group_baseQ b code key /\
+     group_amountQ a code key == group_amountQ b code key /\
+     group_suramountQ a code key == group_suramountQ b code key /\
+     has_group a code key = has_group b code key) /\
+  (forall code,
+     cat_amountQ a code == cat_amountQ b code /\
+     cat_surchargeQ a code == cat_surchargeQ b code /\
+     has_surcharge a code = has_surcharge b code /\
+     has_cat a code = has_cat b code) /\
+  toQ (tt_sum a) == toQ (tt_sum b) /\ exp (tt_sum a) = exp (tt_sum b).
+Proof.
+  intros W1 W2 a b.
+  destruct (merge_exact_for_any_precision t1 t2 W1 W2) as (_ & G1 & C1 & S1 & X1).
+  destruct (merge_exact_for_any_precision t2 t1 W2 W1) as (_ & G2 & C2 & S2 & X2).
+  fold a in G1, C1, S1, X1. fold b in G2, C2, S2, X2.
+  split; [|split; [|split]].
+  - intros code key. destruct (G1 code key) as (H1 & H2 & H3 & H4).
+    destruct (G2 code key) as (K1 & K2 & K3 & K4).
+    rewrite H1, H2, H3, H4, K1, K2, K3, K4. repeat split; try ring. apply orb_comm.
+  - intros code. destruct (C1 code) as (H1 & H2 & H3 & H4). destruct (C2 code) as (K1 & K2 & K3 & K4).
+    rewrite H1, H2, H3, H4, K1, K2, K3, K4. repeat split; try ring; apply orb_comm.
+  - rewrite S1, S2. ring.
+  - rewrite X1, X2. apply Nat.max_comm.
 Qed.
 
 (* ------------------------------------------------------------------------------------------ *)
@@ -992,6 +1197,41 @@ Proof.
   exists 2%nat, ex_calc, ex_loaded, ex_code. split; [exact ex_calc_wf|]. split; [exact ex_loaded_wf|].
   split; vm_compute; discriminate.
 Qed.
+
+(* the presented figures as shipped (x.Add(y): the right operand rounded to the left one's decimals):
+   a summary calculated for JPY (10% of 1000 = 100, no decimals) merged with one calculated for EUR
+   (10% of 100.55 = 10.06): base 1101 / amount 110 / sum 110 in this order, 1100.55 / 110.06 / 110.06
+   in the other *)
+Definition ex_rt10 (base amount : amount) : rate_total :=
+  mkRT [] [] [] (Some (mkA 10 2)) None base amount (mkA 0 (exp base)).
+Definition ex_jpy : tax_total :=
+  mkTT [mkCT ex_code false [ex_rt10 (mkA 1000 0) (mkA 100 0)] (mkA 100 0) None (mkA 0 0)] (mkA 100 0) (mkA 0 0).
+Definition ex_eur : tax_total :=
+  mkTT [mkCT ex_code false [ex_rt10 (mkA 10055 2) (mkA 1006 2)] (mkA 1006 2) None (mkA 0 0)] (mkA 1006 2) (mkA 0 0).
+Lemma ex_jpy_wf : wf_tt 0 ex_jpy. Proof. wf_concrete. Qed.
+Lemma ex_eur_wf : wf_tt 2 ex_eur. Proof. wf_concrete. Qed.
+
+Lemma merge_different_precisions_shipped_refuted :
+  exists c1 c2 t1 t2 code key, wf_tt c1 t1 /\ wf_tt c2 t2 /\
+    group_baseQ (tt_merge_rounding_shipped t1 t2) code key == 1101 # 1 /\
+    group_baseQ (tt_merge_rounding_shipped t2 t1) code key == 110055 # 100 /\
+    ~ group_baseQ (tt_merge_rounding_shipped t1 t2) code key == group_baseQ t1 code key + group_baseQ t2 code key /\
+    ~ group_amountQ (tt_merge_rounding_shipped t1 t2) code key == group_amountQ (tt_merge_rounding_shipped t2 t1) code key /\
+    ~ cat_amountQ (tt_merge_rounding_shipped t1 t2) code == cat_amountQ t1 code + cat_amountQ t2 code /\
+    ~ toQ (tt_sum (tt_merge_rounding_shipped t1 t2)) == toQ (tt_sum t1) + toQ (tt_sum t2).
+Proof.
+  exists 0%nat, 2%nat, ex_jpy, ex_eur, ex_code, (ex_rt10 (mkA 0 0) (mkA 0 0)).
+  split; [exact ex_jpy_wf|]. split; [exact ex_eur_wf|].
+  split; [vm_compute; reflexivity|]. split; [vm_compute; reflexivity|].
+  repeat split; vm_compute; discriminate.
+Qed.
+
+Lemma merge_different_precisions_example :
+  group_baseQ (tt_merge ex_jpy ex_eur) ex_code (ex_rt10 (mkA 0 0) (mkA 0 0)) == 110055 # 100 /\
+  group_baseQ (tt_merge ex_eur ex_jpy) ex_code (ex_rt10 (mkA 0 0) (mkA 0 0)) == 110055 # 100 /\
+  tt_sum (tt_merge ex_jpy ex_eur) = mkA 11006 2 /\ tt_sum (tt_merge ex_eur ex_jpy) = mkA 11006 2.
+Proof. repeat split; vm_compute; reflexivity. Qed.
+
 
 Lemma merge_precise_example :
   cat_precise (tt_merge ex_calc ex_loaded) ex_code == 42001 # 1000 /\
@@ -1301,11 +1541,6 @@ Qed.
 (* ------------------------------------------------------------------------------------------ *)
 (* recalculated summaries are well formed: what a payment merges is inside the merge theorems   *)
 (* ------------------------------------------------------------------------------------------ *)
-Definition shape_rt (r : rate_total) : Prop :=
-  (rt_pct r = None -> rt_sur r = None) /\ (rt_sur r = None -> val (rt_suramount r) = 0).
-Definition wf_shape (t : tax_total) : Prop :=
-  distinct_codes (tt_cats t) /\
-  Forall (fun ct => distinct_groups (ct_rates ct) /\ Forall shape_rt (ct_rates ct)) (tt_cats t).
 
 Lemma rescale_zero_val a e : val a = 0 -> val (rescale a e) = 0.
 Proof.
